@@ -1,23 +1,52 @@
 (* Judge commands 50 (semanticTokens/full) and 51 (completion).
    50: args = the text (code points).
-       Output: 0 :: wf :: data (five numbers per token, as in the response) when the handler answers,
-               [1; wf] when it panics, [2] when the model runs out of fuel / AnalyzedSource::new panics;
-               wf = 1 iff SemTok.doc_wf_b holds for the analysed document.
+       Output: 0 :: wf :: spec :: data (five numbers per token, as in the response) when the handler
+               answers, [1; wf] when it panics, [2] when the model runs out of fuel / AnalyzedSource::new
+               panics; wf = 1 iff SemTok.doc_wf_b holds for the analysed document;
+               spec = 0 when the document has diagnostics (the classification part of C15 does not
+               apply), otherwise 1 + (2 if part (a) of SemTokProofs.semtok_full_statement fails for this
+               document) + (1 if part (b) fails) - so 1 = the full statement holds here.
    51: args = line :: column :: text.
        Output: [0; 0] for the answer `null`; 0 :: 1 :: n :: the n items, each encoded as
                enc_text label ++ [kind] ++ opt detail ++ opt documentation ++ opt insert_text, SORTED
                (the Rust code iterates HashMaps); [1] panic; [2] fuel. *)
 From Spl Require Export Judge.Dump Model.Completion.
+From Spl Require Import Proofs.SemTokProofs.
 
 Definition enc_semtok (s : semtok) : list N := [st_dl s; st_ds s; st_len s; st_ty s; st_mod s].
 
 Definition b2n (b : bool) : N := if b then 1 else 0.
 
+Definition abstok_eqb (a b : abstok) : bool :=
+  (at_line a =? at_line b) && (at_col a =? at_col b) && (at_len a =? at_len b)
+  && (at_ty a =? at_ty b) && (at_mod a =? at_mod b).
+
+(* the two parts of SemTokProofs.semtok_full_statement, decided for one document *)
+Definition full_a_b (d : doc) (dec : list abstok) : bool :=
+  forallb (fun k => match map_class (tk k) with
+                    | Some c => existsb (abstok_eqb (tok_view (d_text d) (k, c))) dec
+                    | None => true
+                    end) (d_toks d).
+
+Definition full_b_b (d : doc) (dec : list abstok) : bool :=
+  forallb (fun o : occ => match snd o, nth_error (d_toks d) (fst o) with
+                          | Some c, Some k => existsb (abstok_eqb (tok_view (d_text d) (k, c))) dec
+                          | _, _ => true
+                          end) (doc_occs d).
+
+Definition spec_flag (d : doc) (data : list semtok) : N :=
+  match doc_errors d with
+  | Done [] =>
+      let dec := decode data in
+      1 + (if full_a_b d dec then 0 else 2) + (if full_b_b d dec then 0 else 1)
+  | _ => 0
+  end.
+
 Definition run_semtok (args : list N) : list N :=
   match new_doc args with
   | Done d =>
       match semantic_tokens d with
-      | SOk data => 0 :: b2n (doc_wf_b d) :: flat_map enc_semtok data
+      | SOk data => 0 :: b2n (doc_wf_b d) :: spec_flag d data :: flat_map enc_semtok data
       | SFail _ => [1; b2n (doc_wf_b d)]
       end
   | Panic => [2]
